@@ -6,7 +6,7 @@ ID = 'C16'
 HARNESSES = ['h_load.cpp']
 LEVEL = 'model_checking'
 BUDGET = {'quick': 290, 'thorough': 3400}
-BOUNDS = {'quick': 'base files: reference-encoded 2x1x2x2 with int/float/2-D char parameters and descriptions (1.5 KB), and an Optotrak-style file with an empty ANALOG group. Mutations, one per run: (a) every header field and every parameter-record field (name length, group id, next-offset, type, number of dimensions, each dimension, description length, block count, processor byte) replaced by FREE bytes; fields whose free exploration exceeds 300 paths / 25 s fall back to the boundary values {0,1,0x7F,0x80,0xFF | 0x7FFF,0x8000,0xFFFF}; (b) a free byte at every 16th offset of header and parameter section; (c) truncation at every length 0..size (every 5th length in the header and parameter section, every 16th in the data); (d) fully symbolic files of 0..6 bytes',
+BOUNDS = {'quick': 'base files: reference-encoded 2x1x2x2 with int/float/2-D char parameters and descriptions (1.5 KB), and an Optotrak-style file with an empty ANALOG group. Mutations, one per run: (a) every header field and every parameter-record field (name length, group id, next-offset, type, number of dimensions, each dimension, description length, block count, processor byte) replaced by FREE bytes; fields whose free exploration exceeds 300 paths / 25 s fall back to the boundary values {0,1,0x7F,0x80,0xFF | 0x7FFF,0x8000,0xFFFF}; (a2) the dimension block of every parameter set to 7 dimensions of 255, also with the file cut after it; (b) a free byte at every 16th offset of header and parameter section; (c) truncation at every length 0..size (every 5th length in the header and parameter section, every 16th in the data); (d) fully symbolic files of 0..6 bytes',
           'thorough': 'both base files, (b) every offset, pairs length x offset, (d) up to 8 bytes'}
 OUTSIDE = 'three or more damaged bytes at once; base files above 2 KB; damage whose only effect is a declared data size larger than the bytes present is recorded as a known finding (the pinned tests load such a file)'
 ASSUMPTIONS = ['allowed outcomes: normal return or an exception derived from std::exception', 'resource rule: an allocation whose size depends on input and can exceed max(1 MiB, 64 x file size), or more than 2000 x (size + 1024) IR steps on one path, is a violation']
@@ -56,6 +56,13 @@ def jobs(tier, seed):
             fl = [f for f in fl if f[0].startswith('header.') or f[0].startswith('param.') or 'ANALOG' in f[0] or 'USED' in f[0] or 'LABELS' in f[0] or 'FRAMES' in f[0]]
         for name, offs in fl:
             out.append({'entry': 'h_load', 'harness': 'h_load.cpp', 'name': 'field', 'base': b, 'field': name, 'offs': offs, 'cfg': {'gens': 0, 'dump': 0, 'obsfiles': 0}})
+        # (a2) the dimension block of every parameter record set to its maximum (7 dimensions of 255), on the whole file and on
+        # the file cut right after the block
+        for p in D['params']:
+            n = len(p['name']); q = p['pos'] + 2 + n + 2 + 1
+            gname = bytes(D['groups'][p['gid']]['name']).decode(); nm = 'param[%s:%s].dimblock' % (gname, bytes(p['name']).decode())
+            for cut in (0, 1):
+                out.append({'entry': 'h_load', 'harness': 'h_load.cpp', 'name': 'dimblock', 'base': b, 'field': nm + ('+cut' if cut else ''), 'offs': list(range(q, q + 8)), 'vals': [7] + [255] * 7, 'cut': (q + 8 + 32) if cut else None, 'cfg': {'gens': 0, 'dump': 0, 'obsfiles': 0}})
         # (b) sliding window of one free byte
         last_rec = max([p['pos'] for p in D['params']] + [512]) + 64
         step = 1 if tier == 'thorough' else 16
@@ -122,6 +129,13 @@ def run_job(engine, job):
             for T in job['lengths']:
                 run_one(eng, job, res, base[:T], None, 'length=%d' % T)
             res['sample'] = {'mutation': 'truncation', 'base': job['base'], 'lengths': job['lengths'][:5]}
+        elif job['name'] == 'dimblock':
+            cells = list(base_file(job['base']))
+            for o, v in zip(job['offs'], job['vals']): cells[o] = v
+            if job['cut']: cells = cells[:job['cut']]
+            cut, _n = run_one(eng, job, res, cells, None, job['field'], cap_paths=50, cap_wall=120)
+            if cut: res['inconclusive'].append('%s %s: exploration cut (not decided)' % (job['base'], job['field']))
+            res['sample'] = {'mutation': 'dimension block set to 7 x 255', 'field': job['field']}
         elif job['name'] == 'tiny':
             n = job['nbytes']; vs = [z3.BitVec('b%d' % k, 8) for k in range(n)]
             cut, np = run_one(eng, job, res, vs, None, 'free', cap_paths=3000, cap_wall=120)
